@@ -158,4 +158,14 @@ structure EncSpecs : Prop where
     ∧ (i.est > 0 → e.sigVal = sign (interestCovered i) ∧ e.sigCovered = some (interestCovered i) ∧ e.sigVal.length ≤ i.est)
     ∧ (i.est = 0 → e.sigCovered = none ∧ e.sigVal = [])
 
+/-- an Interest WITHOUT parameters must not end (after the encoder dropped one trailing digest
+    component) in yet another ParametersSha256Digest component: the decoder rejects a trailing
+    digest without parameters -/
+def NoTrailingDigest (i : InterestIn) : Prop :=
+  i.ap = none → ∀ c, (stripDigest i.name).getLast? = some c → c.typ ≠ 2
+
+/-- interface: SignatureInfo parses back (proved in LemmasData.lean, used by LemmasInterest.lean) -/
+def SigInfoParseSpec : Prop :=
+  ∀ (r : Rd) (s : SigInfo), At r (encSigInfo s) 0 → SigInfoValid s → sigInfoLen s < 2 ^ 62 → parseSigInfo r = .ok s
+
 end Ndn.C03
